@@ -30,7 +30,9 @@ CLAIMS = {
              "interpolation algorithms, strength factors, proof reduction and simplification levels, every printed interpolant of "
              "random groupings is re-decided: A+not I and I+B must be refuted by a fresh run whose trace the Lean machine "
              "accepts (LA and EUF lemmas kernel-checked), and its symbols must be shared; a rejected legal request is a "
-             "violation. Mirror: on propositional instances with :produce-proofs, the printed proof, the partition of its leaves "
+             "violation; two more families run through the same re-decision: larger propositional refutations (random 3-CNF above the "
+             "threshold, all six Boolean algorithms, with and without proof reduction) and EUF problems built from congruence "
+             "closure (all three EUF algorithms). Mirror: on propositional instances with :produce-proofs, the printed proof, the partition of its leaves "
              "and the labelling system (McMillan, Pudlak, McMillan') are given to the Lean model of the labelled interpolation "
              "systems; after its executable well-formedness check the model's root interpolant must be logically equal (all "
              "assignments) to the printed interpolant. Partial: the proof-sensitive systems, the theory interpolants (EUF, "
@@ -57,7 +59,9 @@ CLAIMS = {
              "solver's own): the printed model and get-value answer are read back by this project's reader (Lean evaluator: the "
              "assertions hold, the values agree) and by opensmt itself (definitions instead of declarations: the assertions "
              "and the printed values are satisfied), printed full cores must be unsatisfiable when read back (opensmt and z3), "
-             "printed interpolants must be readable, dumped queries must get the same answer from opensmt and z3. Partial: "
+             "printed interpolants must be readable, dumped queries must get the same answer from opensmt and z3; (3) incremental "
+             "histories in which one name is declared with two sorts (full cores, values of qualified terms, dumped queries must "
+             "read back with both declarations present). Partial: "
              "abstract values of uninterpreted sorts are read back by this project's reader only.",
         design_ref="5 C17"),
     "C18": dict(
@@ -67,9 +71,12 @@ CLAIMS = {
              "when no error response was printed (C18_exit_zero_iff_no_error); the command frames of pipe input do not depend on how the bytes arrive. Tie and "
              "search: generated scripts (11 logics, options, queries in wrong modes, division by zero, non-linear terms, arrays, "
              "bit-vectors) and files of /repo/test/regression are mutated (byte deletion / insertion / flip, truncation, token and "
-             "line swaps, dropped declarations, huge numerals, deep nesting) and run as a file and through a pipe on the "
+             "line swaps, dropped declarations, huge numerals, deep nesting, awkward tokens such as %s / 007 / qualified identifiers, "
+             "dropped or repeated arguments, attribute values, text after the last command, CRLF, commands and their options before "
+             "set-logic or after a refused set-logic, a name declared with two sorts) and run as a file and through a pipe on the "
              "ASan+UBSan build: status must be 0 or 1 with no sanitizer report and no timeout on scripts without check-sat, the "
-             "status must be 0 exactly when no diagnostic was printed, lexically broken input must get a diagnostic.",
+             "status must be 0 exactly when no diagnostic was printed, lexically broken input and text after the last command must "
+             "get a diagnostic.",
         design_ref="5 C18"),
     "C19": dict(
         technique="Lean 4 proof (front-end command machine: a rejected command is the identity; scripts equal their accepted sub-scripts) tied by differential runs of the executable with and without rejected commands and by comparison with the machine",
@@ -81,7 +88,9 @@ CLAIMS = {
              "fresh inner names inside rejected assertions, pops beyond the stack): the executable is run with and without them "
              "and must give the same check-sat answers and success/error responses, and models / cores that are valid for the "
              "script without them; its accept/reject pattern and the number of active assertions per check must match the "
-             "machine. Partial: declarations, define-fun and option commands are not among the inserted commands.",
+             "machine; in the interpolation flavour every interpolant printed after rejected commands is re-decided as a Craig "
+             "interpolant of the script without them. Partial: declarations, define-fun and option commands are not among the "
+             "inserted commands.",
         design_ref="5 C19"),
     "C22": dict(
         technique="Lean 4 proof (LA and EUF clause kernels: a certified clause is valid, so its negated literals are jointly unsatisfiable) tied by certification of every verdict of the theory solvers on random assert / check / backtrack sequences",
@@ -91,8 +100,11 @@ CLAIMS = {
              "declare / assert / check / backtrack operations (half of them in the engine's protocol, where every assertion is "
              "followed by a check); every reported inconsistency must consist of currently asserted literals and be certified "
              "by a kernel; every `consistent` verdict of a complete check is attacked by the certificate producers and is a "
-             "violation when a kernel certifies the asserted literals inconsistent. Partial: consistency verdicts are only "
-             "refuted, not confirmed; the array solver is not driven.",
+             "violation when a kernel certifies the asserted literals inconsistent; for the LA solver the values of its own model are "
+             "evaluated by the Lean evaluator on the asserted literals (counted as confirmations). 40% of the LA sequences end with "
+             "a bound ladder (several bounds on one row term, declared, asserted and retracted at different moments, then bounds "
+             "on the summands). Partial: consistency verdicts of the other solvers are only refuted, not confirmed; the array "
+             "solver is not driven.",
         design_ref="5 C22"),
     "C23": dict(
         technique="Lean 4 proof (the pseudo-random generator is a pure function of the seed with state in [1, m-1] and draws below the size) tied by a mirror of common/Random.h and by repeated runs of the executable with address-space randomisation on and off - partial",
@@ -101,7 +113,9 @@ CLAIMS = {
              "Random.h's drand/irand against the Lean mirror on thousands of seeds and sizes (identical state and draw "
              "sequences, which also shows the double arithmetic exact there); every generated script x option vector "
              "(seeds, engines, models, cores, proofs, interpolants, non-incremental) is run three times - ASLR on, on, off "
-             "(setarch -R) - and standard output and exit status must be byte-identical.",
+             "(setarch -R) - and standard output and exit status must be byte-identical; so are interpolation requests under every "
+             "interpolation algorithm (EUF problems built from congruence closure, the random EUF algorithm included) and scripts "
+             "with rejected commands over long names (text of diagnostics).",
         design_ref="5 C23"),
     "C24": dict(
         technique="Lean 4 proof (pool machine of the shared big-rational pool: a cell handed out is never in use, invariant kept by alloc and release) tied by concurrent runs under ThreadSanitizer compared with runs alone - partial",
@@ -129,8 +143,10 @@ CLAIMS = {
              "result. Tie: random sequences of 20-80 constructions (constants, uninterpreted applications of arity 1-3, a predicate, "
              "equalities, conjunctions and disjunctions, with repetitions and permuted repetitions) are executed through Logic's "
              "constructors in a harness linked against the current tree and through the model; which results coincide with which "
-             "earlier ones must agree, children must have smaller identities and new terms increasing Pterm ids. Partial: "
-             "constructors that simplify their arguments and arithmetic normalisation are C14's subject, not modelled here.",
+             "earlier ones must agree, children must have smaller identities and new terms increasing Pterm ids; a second harness "
+             "does the same under QF_UFLIA with integer variables, scaled variables, sums over pairwise different variables, "
+             "equalities and exclusive ors. Partial: constructors that simplify their arguments (merging of addends, constant "
+             "folding) are C14's subject, not modelled here.",
         design_ref="5 C28"),
     "C29": dict(
         technique="Lean 4 proof (checker soundness independent of the declared logic: accepted unsat traces refute the roots, validated models satisfy the assertions) tied by certification of every answer on out-of-logic scripts",
@@ -139,8 +155,11 @@ CLAIMS = {
              "(sums, scaled variables, three variables, single variables under QF_IDL/QF_RDL/QF_UFIDL; non-linear products and "
              "division; Int symbols under QF_LRA, Real symbols under QF_LIA, mixed sorts; arithmetic under QF_UF; div/mod on reals), "
              "incremental, with get-model after every check: every unsat must be accepted by the Lean machine with kernel-checked "
-             "theory lemmas, every sat must come with a model the Lean evaluator validates on all accepted assertions; rejections "
-             "are counted, abnormal termination is a violation.",
+             "theory lemmas and is attacked with a z3-proposed, Lean-validated model of the accepted assertions as written (the "
+             "front end may have built other terms), every sat must come with a model the Lean evaluator validates on all accepted "
+             "assertions; rejections are counted, abnormal termination is a violation. Further families: products with several "
+             "sums and constants, uninterpreted functions under logics without them, symbols declared late (after the constants "
+             "their normal forms need).",
         design_ref="5 C29"),
     "C30": dict(
         technique="Lean 4 proof (trail machine of the CDCL search loop: a base-3 reading of the trail grows with every decision, propagation and backjump, so a restart period has fewer than 3^n steps and a run under growing conflict limits is finite) tied by replaying the trail events of real runs on the machine, plus a time-limited search over engines and options - partial",
@@ -175,7 +194,10 @@ CLAIMS = {
              "learnt clauses RUP, final conflict by propagation under the frame assumptions) the roots of the enabled frames "
              "are unsatisfiable in every well-formed interpretation. Tie: every check-sat of every generated script/history "
              "x option vector x engine is traced and replayed; an unsat that the machine cannot confirm is a violation with the "
-             "script as replay. Partial: the step roots -> user assertions is C13; array logics are outside the corpus.",
+             "script as replay. Every certified unsat answer is also attacked from the other side: z3 proposes a model of the "
+             "assertions as written, the Lean evaluator validates it; a validated model is a violation whatever front end and "
+             "preprocessor did (tools/attack.py). Partial: the step roots -> user assertions is C13's theorem; array logics are "
+             "outside the corpus.",
         design_ref="5 C01"),
     "C11": dict(
         technique="Lean 4 proof (soundness of LA/Farkas and EUF proof-checking kernels) applied to every theory clause of traced runs",
@@ -196,7 +218,9 @@ CLAIMS = {
         text="Theorems Smt.sat_sound (an accepted sat answer's Boolean model makes every root true from the atom values alone, "
              "no CNF encoding or variable elimination trusted) and C02_validated_model (a printed model under which the Lean "
              "evaluator makes every assertion true is a model). Tie: every sat answer of traced runs must be accepted; every "
-             "printed model of a corpus with big constants / LIA / IDL emphasis is evaluated on all active assertions. Partial: "
+             "printed model of a corpus with big constants / LIA / IDL emphasis is evaluated on all active assertions; sat answers "
+             "of the difference-logic solvers on graph shapes (chains with longer direct edges, shortest-path bounds) are attacked by "
+             "a refutation of the same assertions under the embedding logic that the Lean machine accepts. Partial: "
              "completeness of the theory solvers' final check is certified per run by the validated model, not proved; array "
              "logics are excluded.",
         design_ref="5 C02"),
@@ -205,14 +229,17 @@ CLAIMS = {
         text="The printed model is read as definitions with bodies and denotes Model.interp; theorem C03_model_satisfies: the "
              "executable check is exactly Sat. Tie: for every sat answer of generated scripts/histories the model must define "
              "every declared symbol, make every active assertion true, give constants values of their sort, and get-value must "
-             "agree with it. Abstracted: value extraction inside Egraph/Simplex/STP (validated per run).",
+             "agree with it (one family has numeric variables that occur only under uninterpreted symbols next to variables with "
+             "arithmetic values). Abstracted: value extraction inside Egraph/Simplex/STP (validated per run).",
         design_ref="5 C03"),
     "C05": dict(
         technique="Lean 4 proof (machine theorems quantify over all schedulers; unsat vs validated model contradiction) plus differential runs over configurations",
         text="Corollaries C05_unsat_vs_model / C05_no_contradiction of the C01/C02 machine theorems, which hold for every accepted "
              "event sequence whatever engine, seed, restart policy or tracking option produced it. Tie/search: each generated "
              "input is run under k option vectors (seed, lookahead, picky, ghost, SatELite, tracking, substitutions, restarts, "
-             "ccmin) and under more expressive logics; any sat/unsat pair is a violation.",
+             "ccmin) and under more expressive logics; any sat/unsat pair is a violation. Input families: random formulas and "
+             "histories, short clauses over theory atoms, functions with Boolean arguments, dense difference constraints, and a "
+             "batch of 300 difference-logic graph shapes run under the logic and its embedding; corpus/C05 runs under every vector.",
         design_ref="5 C05"),
     "C04": dict(
         technique="Lean 4 proof (frame-stack mirror: enabled_exact, active-set lemmas, all histories) tied by assumption comparison per check and incremental-vs-fresh differential runs",
@@ -221,7 +248,9 @@ CLAIMS = {
              "removes exactly the top frame's formulas. Tie: for every check-sat of generated histories the engine's actual "
              "assumptions (trace) must equal the Lean model's, every definitive answer must equal a fresh solver's answer on "
              "the active assertions, and the same history without get-model/get-value/get-unsat-core queries must give the "
-             "same answers. Partial: per-frame substitutions and the Preprocessor counters are not mirrored (covered only "
+             "same answers; one history family pushes, fills and pops sibling levels whose definitions contradict each other (some "
+             "never checked, some asserted into after their last check). Partial: per-frame substitutions and the Preprocessor "
+             "counters are not mirrored (covered only "
              "differentially).",
         design_ref="5 C04"),
     "C15": dict(
@@ -254,7 +283,8 @@ CLAIMS = {
              "the negation of difference constraints keep the integer solutions; LA.tighten_sound. Tie: folded constants of "
              "the front end vs the mirror on a boundary lattice of (a,d); integer comparison atoms with non-unit coefficients "
              "vs their constructed normal forms evaluated in Lean on an integer grid; Converter<SafeInt>::negate/getValue "
-             "harness vs the mirror.",
+             "harness vs the mirror; the elimination axioms end to end: x pinned by two bounds, (div x d) and (mod x d) must be "
+             "the mirror's quotient and remainder (sat) and nothing else (unsat), for either divisor sign.",
         design_ref="5 C27"),
     "C16": dict(
         technique="Lean 4 proof (decimal literal conversion exact for all digit lists) tied by exhaustive short-string differential runs against StringConv.h and a print/re-read round trip",
@@ -263,7 +293,7 @@ CLAIMS = {
              "accepted. Tie: isIntString, isRealString and stringToRational of the real header vs the Lean model on ALL strings "
              "up to length 6 (quick) / 8 (thorough) over 0159./- plus long random literals, under ASan/UBSan; every string "
              "isRealString accepts must convert to its exact value (independent exact oracle); numeric values printed by "
-             "get-value are re-read and compared. Partial: the automata and the rejection of malformed strings are tied "
+             "get-value (numerators and denominators of up to 130 digits) are re-read and compared. Partial: the automata and the rejection of malformed strings are tied "
              "exhaustively, not proved; fraction strings with a decimal part are not compared.",
         design_ref="5 C16"),
     "C21": dict(
@@ -272,7 +302,7 @@ CLAIMS = {
              "every balanced sequence between pushScope and popScope the vector and limits are restored exactly (names gone "
              "and re-insertable); global mode keeps names while the limit stack still follows the assertion stack. Tie: random "
              "insert/push/pop/mode-switch sequences on the real TermNames vs the mirror (all three containers compared), and "
-             "scripts with :named, define-fun, push/pop, global declarations whose every response must match a scope-stack "
+             "scripts with :named, define-fun, push/pop of one or several levels, global declarations whose every response must match a scope-stack "
              "reference and whose unsat cores may only name current assertions. Partial: DefinedFunctions (define-fun) is "
              "checked end to end only.",
         design_ref="5 C21"),
@@ -283,7 +313,8 @@ CLAIMS = {
              "cannot go negative without the unbalanced-parentheses error. Tie: the real interpPipe (frames observed through a "
              "guarded hook, read(2) sizes controlled by an LD_PRELOAD shim) vs the mirror on all byte strings up to length 3/6 "
              "over ( ) \" | ; \\ a space newline and random longer ones under up to 7 read-size schedules; valid scripts with "
-             "adversarial layout (comments with parentheses, quoted symbols with ( ; inside, escaped quotes) must give the same "
+             "adversarial layout (comments with parentheses, quoted symbols with ( ; inside, escaped quotes, lone backslashes, tabs, "
+             "CRLF) must give the same "
              "stdout and exit status through a file and through the pipe. Partial: behaviour after an unbalanced-parentheses "
              "error and after (exit) is not compared.",
         design_ref="5 C20"),
